@@ -2,7 +2,7 @@
 from collections import Counter
 
 from .. import hooks
-from ..gen import big_n, canon, exact, mk_event, rand_grid, rand_intervals, rand_nonoverlapping
+from ..gen import big_n, canon, exact, maybe_zone, mk_event, rand_grid, rand_intervals, rand_nonoverlapping
 from ..model import allen, closed_union, measure
 from . import _tx
 from ._tx import exc_viol, is_event_list, iv, snap, tmod, unmodified
@@ -132,10 +132,12 @@ _DATA = [{}, {"label": "a"}, {"label": "b"}, {"app": "x", "n": [1, {"k": None}]}
          {"label": "a", "cursor": [12, 40]}, {"size": {"wh": {"$tuple": [80, 24]}}, "hist": [{"$tuple": ["a", 1]}]}]
 
 
-def _specs(rng, ivs, base, unit, idbase):
+def _specs(rng, ivs, base, unit, idbase, zone=None):
     out = []
     for i, (s, e) in enumerate(ivs):
         sp = dict(ts=base + s * unit, dur=(e - s) * unit, data=rng.choice(_DATA))
+        if zone and rng.random() < 0.7:
+            sp["zone"] = zone
         if rng.random() < 0.7:
             sp["id"] = idbase + i
         out.append(sp)
@@ -144,6 +146,7 @@ def _specs(rng, ivs, base, unit, idbase):
 
 def gen_case(rng, ctx):
     base, unit = rand_grid(rng)
+    base, unit, zone = maybe_zone(rng, base, unit)
     span = rng.choice([6, 10, 16, 30])
     fn = "intersect" if rng.random() < 0.55 else "union"
     na, nb = big_n(rng, rng.randrange(0, 11)), big_n(rng, rng.randrange(0, 11))
@@ -159,7 +162,7 @@ def gen_case(rng, ctx):
     else:
         a = rand_intervals(rng, na, span)
         b = rand_intervals(rng, nb, span)
-    sa, sb = _specs(rng, a, base, unit, 100), _specs(rng, b, base, unit, 200)
+    sa, sb = _specs(rng, a, base, unit, 100, zone), _specs(rng, b, base, unit, 200, zone)
     if rng.random() < 0.4:
         rng.shuffle(sa)
         rng.shuffle(sb)
